@@ -14,6 +14,9 @@ R2  spec->code: TLC prints every history (bulk construction + insertions) over a
     closed index formulas checked against the explicit enumerations for small n, then used for n <= 20 / 62 / 2^63).
 R3  code->spec: Hilbert tables and answers of the real trees on large lattice point sets are
     recorded and judged by TLC against HilbertTrace.tla / SpatialIndexTrace.tla.
+Far coordinates (SpatialIndex.tla, Far = TRUE): the same R1 / R2 / R3 stages over point sets that mix coordinates of the
+    magnitudes 1, 2^500 and 2^600, where a squared distance is a small integer, an exact multiple of 2^1000 or +Inf (extended
+    values, +Inf greatest): k-nearest still returns min(k, N) points, a ball of radius +Inf everything.
 Barnes-Hut: BarnesHut.tla (single particle lists, theta = 0) and BarnesHutHist.tla (histories of one Plane / Volume
     object: R1 theorems, R2 every maximal history in a bound replayed, R3 recorded long histories judged by
     BarnesHutHistTrace.tla).
@@ -32,11 +35,11 @@ def enc_set(vals):
     return "{" + ",".join(str(v) for v in sorted(vals)) + "}"
 
 
-def qcode(q):
+def qcode(q, off=OFF):
     c = 0
     for x in q:
-        assert 0 <= x + OFF < 64
-        c = c * 64 + (x + OFF)
+        assert 0 <= x + off < 64
+        c = c * 64 + (x + off)
     return c
 
 
@@ -95,7 +98,51 @@ def index_subst(rng, dim, coords, mb, mt, nq, emit, invs):
     qs = queries(rng, dim, coords, nq)
     return dict(BOXES=enc_set({qcode(c) for c in box_corners(dim, coords)}),DIM=dim, COORDS=enc_set([c + OFF for c in coords]), OFF=OFF, MAXBUILT=mb, MAXTOTAL=mt,
                 QCODES=enc_set({qcode(q) for q in qs}), KS=enc_set(KS), RS=enc_set(RS),
-                EMIT="TRUE" if emit else "FALSE", INVS=invs)
+                EMIT="TRUE" if emit else "FALSE", INVS=invs, FAR="FALSE")
+
+
+# ---- far coordinates (SpatialIndex.tla, Far = TRUE) -----------------------------------------------------------
+# A coordinate code a stands for a (|a| <= 8), sgn(a)(|a|-8) 2^500 (9..15) or sgn(a)(|a|-16) 2^600 (17..23); a squared
+# distance is the extended value v | v 2^1000 | +Inf, coded lev * 4096 + v (the specification's FarDist2).
+FAR_OFF = 32
+FAR_DB = 4096
+# squared radii: 0, small, multiples of 2^1000, +Inf
+FAR_RS = [0, 1, 4, 5, FAR_DB + 1, FAR_DB + 2, FAR_DB + 4, FAR_DB + 5, 2 * FAR_DB]
+# name, dim, coordinate codes, MaxBuilt, MaxTotal, reps, tier
+FAR_INDEX = [
+    ("far-1d-5x4", 1, [-17, 0, 2, 9, 17], 3, 4, 1, "quick"),
+    ("far-2d-9x3", 2, [0, 9, 17], 2, 3, 1, "quick"),
+    ("far-1d-7x4", 1, [-17, -9, 0, 2, 9, 10, 17], 3, 4, 2, "thorough"),
+    ("far-2d-16x3", 2, [0, 2, 9, 17], 2, 3, 2, "thorough"),
+    ("far-2d-4x5", 2, [0, 17], 3, 5, 2, "thorough"),
+    ("far-3d-8x4", 3, [0, 10], 3, 4, 2, "thorough"),
+]
+
+
+def far_queries(dim, coords):
+    """Query points (coordinate codes): on stored values, between near ones, at other multiples of the level units,
+    beyond the largest stored value, on the diagonal and with one far component only."""
+    vals = sorted(set(coords) | {1, 10, 18, -9})
+    if dim == 1:
+        return [[v] for v in vals]
+    qs = [[v] * dim for v in vals]
+    qs += [[v] + [coords[0]] * (dim - 1) for v in vals]
+    qs += [[coords[-1]] * (dim - 1) + [v] for v in (1, 10, 18)]
+    out = []
+    for q in qs:
+        if q not in out:
+            out.append(q)
+    return out
+
+
+def far_subst(dim, coords, mb, mt, emit, invs):
+    lo, hi, mid = min(coords), max(coords), sorted(coords)[len(coords) // 2]
+    corners = [[v] * dim for v in (lo, hi, mid, 0, 1, 9, 23, -23)]
+    if dim > 1:
+        corners += [[lo] + [hi] * (dim - 1), [mid] + [lo] * (dim - 1)]
+    return dict(BOXES=enc_set({qcode(c, FAR_OFF) for c in corners}), DIM=dim, COORDS=enc_set([c + FAR_OFF for c in coords]),
+                OFF=FAR_OFF, MAXBUILT=mb, MAXTOTAL=mt, QCODES=enc_set({qcode(q, FAR_OFF) for q in far_queries(dim, coords)}),
+                KS=enc_set(KS), RS=enc_set(FAR_RS), EMIT="TRUE" if emit else "FALSE", INVS=invs, FAR="TRUE")
 
 
 def spatial_index(ctx, bins, thorough):
@@ -107,6 +154,17 @@ def spatial_index(ctx, bins, thorough):
                               name="R1 SpatialIndex 2d, 9 lattice points, <=3 stored"),
               lambda: ctx.tlc("spatial/SpatialIndex.tla", "spatial/SpatialIndex_model.cfg", subst=s2, workers=2,
                               name="R1 SpatialIndex 1d, 4 lattice points, <=%d stored" % (5 if thorough else 4))]
+    # far coordinates: the rounding lemma behind the extended distances (one state), and the same theorems over
+    # every history of far points in a bound
+    s3 = far_subst(1, [0], 0, 0, False, "FarLemma")
+    s4 = far_subst(1, [-17, 0, 9, 17], 3, 4 if thorough else 3, False, ALLINV)
+    s5 = far_subst(2, [0, 9, 17], 2, 2, False, ALLINV)
+    thunks += [lambda: ctx.tlc("spatial/SpatialIndex.tla", "spatial/SpatialIndex_model.cfg", subst=s3, workers=1,
+                               name="R1 SpatialIndex far coordinates: rounding lemma in a miniature binary floating point format"),
+               lambda: ctx.tlc("spatial/SpatialIndex.tla", "spatial/SpatialIndex_model.cfg", subst=s4, workers=2,
+                               name="R1 SpatialIndex far coordinates 1d (0, 2^500, +-2^600), <=%d stored" % (4 if thorough else 3)),
+               lambda: ctx.tlc("spatial/SpatialIndex.tla", "spatial/SpatialIndex_model.cfg", subst=s5, workers=2,
+                               name="R1 SpatialIndex far coordinates 2d, 9 points, <=2 stored")]
 
     # R2: every history, replayed
     def one(name, dim, coords, mb, mt, nq, reps):
@@ -120,6 +178,18 @@ def spatial_index(ctx, bins, thorough):
         if tier == "thorough" and not thorough:
             continue
         thunks.append(lambda a=(name, dim, coords, mb, mt, nq, reps): one(*a))
+
+    # far coordinates: the same histories over points whose squared distances are small integers, exact multiples of
+    # 2^1000 or +Inf; the answers are the specification's on the extended values
+    def far(name, dim, coords, mb, mt, reps):
+        cases = ctx.gen("spatial/SpatialIndex.tla", "spatial/SpatialIndex_model.cfg", name="R2 gen index " + name,
+                        subst=far_subst(dim, coords, mb, mt, True, "EmitState"))
+        for bn, b in bins.items():
+            ctx.replay(b, "spatial-index", cases, [IMPLS, "reps=%d" % reps], name="R2 replay index %s [%s]" % (name, bn))
+    for name, dim, coords, mb, mt, reps, tier in FAR_INDEX:
+        if tier == "thorough" and not thorough:
+            continue
+        thunks.append(lambda a=(name, dim, coords, mb, mt, reps): far(*a))
     ctx.parallel(thunks, width=3)
 
 
@@ -221,18 +291,23 @@ def hilbert(ctx, bins, thorough):
 def index_trace(ctx, bins, thorough):
     """code->spec: large lattice point sets (dims 1..6, up to 2000 points, duplicates), bulk build +
     inserts + queries on the live kdtree and a vptree of the same bag, judged by TLC."""
-    runs = [("a", ["runs=6", "maxn=700", "queries=5"], "index")]
+    runs = [("a", ["runs=6", "maxn=700", "queries=5"], "index", False)]
     if thorough:
-        runs = [("a", ["runs=12", "maxn=2000", "queries=8"], "index"), ("b", ["runs=12", "maxn=1200", "queries=10"], "index")]
+        runs = [("a", ["runs=12", "maxn=2000", "queries=8"], "index", False), ("b", ["runs=12", "maxn=1200", "queries=10"], "index", False)]
     # box queries (kdtree.DoBounded) are recorded in files of their own: a rejection there has its own signature
-    runs += [("box", ["runs=12", "maxn=400", "queries=6", "boxes=only"], "kdtree.DoBounded")]
+    runs += [("box", ["runs=12", "maxn=400", "queries=6", "boxes=only"], "kdtree.DoBounded", False)]
     if thorough:
-        runs += [("box-b", ["runs=24", "maxn=2000", "queries=10", "boxes=only"], "kdtree.DoBounded")]
+        runs += [("box-b", ["runs=24", "maxn=2000", "queries=10", "boxes=only"], "kdtree.DoBounded", False)]
+    # far coordinates (multiples of 1, 2^500, 2^600 in one point set; squared distances small, multiples of 2^1000, +Inf)
+    runs += [("far", ["runs=6", "maxn=200", "queries=5", "far=1"], "index:far-coordinates", True)]
+    if thorough:
+        runs += [("far-b", ["runs=12", "maxn=800", "queries=8", "far=1"], "index:far-coordinates", True)]
     for bn, b in bins.items():
-        for name, args, what in runs:
+        for name, args, what, far in runs:
             tr = os.path.join(ctx.work, "index-trace-%s-%s.ndjson" % (name, bn))
+            sub = dict(FAR="TRUE" if far else "FALSE")
             summ = ctx.record(b, "spatial-trace", tr, args + ["salt=" + name], name="R3 record index trace %s [%s]" % (name, bn))
-            ok, st = ctx.validate("spatial/SpatialIndexTrace.tla", "spatial/SpatialIndexTrace.cfg", tr,
+            ok, st = ctx.validate("spatial/SpatialIndexTrace.tla", "spatial/SpatialIndexTrace.cfg", tr, subst=sub,
                                   name="R3 validate index trace %s [%s]" % (name, bn), timeout=1500)
             if ok:
                 ctx.traces += summ.get("traces", 0)
@@ -242,7 +317,7 @@ def index_trace(ctx, bins, thorough):
                 dst = keep_trace(ctx, tr, "index-trace-%s-%s" % (name, bn))
                 ctx.violation("spatial:%s:trace-rejected" % what, st.get("detail", "")[:700],
                               {"trace": dst, "spec": "spatial/SpatialIndexTrace.tla",
-                               "cfg_file": "spatial/SpatialIndexTrace.cfg", "cfg": {}})
+                               "cfg_file": "spatial/SpatialIndexTrace.cfg", "cfg": sub})
 
 def barneshut(ctx, bins, thorough):
     """theta = 0: ForceOn equals the spec's direct pairwise sum (exact integer cubic force law)."""
@@ -389,7 +464,10 @@ def replay(ctx, path):
     os.makedirs(os.path.join(SPECS, "lib"), exist_ok=True)
     d = json.load(open(path))["data"]
     if "trace" in d:
-        ok, st = ctx.validate(d["spec"], d["cfg_file"], d["trace"], subst=d.get("cfg", {}))
+        sub = dict(d.get("cfg", {}))
+        if d["cfg_file"].endswith("SpatialIndexTrace.cfg"):
+            sub.setdefault("FAR", "FALSE")      # (replay files written before the far coordinate runs existed)
+        ok, st = ctx.validate(d["spec"], d["cfg_file"], d["trace"], subst=sub)
         print("trace accepted" if ok else "trace rejected: " + st.get("detail", "")[:800])
         if not ok:
             print("VIOLATION property=C20 replay=%s" % path)
